@@ -16,6 +16,9 @@ RULE = (
     "is an immediate continuation; with dropping on a token shorter than max_length ends with a valid "
     "frame. Non-trivial = some token contains an invalid frame."
 )
+RULE += (
+    ' Exhaustive reuse part: every accepted parameter tuple with max_length <= 3 (thorough: 4) x every earlier stream of 1..5 (6) frames x how it was left (list run, generator unstarted / advanced one token and abandoned, two generators requested up front) x every later stream of 1..4 (5) frames: the used tokenizer must satisfy the property like a fresh one.'
+)
 MUST_HIT = ["run_straddles_cut", "ended_by_excess_silence_drop", "init_phase_silence"]
 ASSUMPTIONS = ["a token has max_length frames iff it was cut"]
 
